@@ -85,7 +85,8 @@ def gen_simcase(rng, tier):
     if any(b["lp"][0] == "popularity" for b in bandits):
         rs = [abs(r) for r in rs]
     t = {"arms": arms, "ds": ds, "rs": rs, "cx": cx, "bandits": bandits, "test_size": test_size, "is_ordered": rng.random() < 0.5,
-         "batch_size": min(bs, n_test), "is_quick": rng.random() < 0.5, "seed": rng.randint(0, 10**6)}
+         "batch_size": min(bs, n_test), "is_quick": rng.random() < 0.5, "seed": rng.randint(0, 10**6),
+         "container": rng.choice([0, 0, 0, 1, 2, 3, 4])}
     if rng.random() < 0.25:
         t["force_chunk"] = rng.choice([1, 2, 3, 5])      # chunked drivers (model: sim_offline_chunked / sim_online_chunked)
     return t
@@ -103,7 +104,8 @@ def run_sim_impl(t):
     with mwh.recording() as tape:
         bandits = REL.build_sim_bandits(t)
         any_ctx = any(not REL.is_context_free(b) for b in t["bandits"])
-        sim = Simulator(bandits, list(t["ds"]), list(t["rs"]), [list(r) for r in t["cx"]] if any_ctx else None,
+        in_ds, in_rs, in_cx = REL.sim_inputs(t, any_ctx)
+        sim = Simulator(bandits, in_ds, in_rs, in_cx,
                         test_size=t["test_size"], is_ordered=t["is_ordered"], batch_size=t["batch_size"], seed=t["seed"], is_quick=t["is_quick"])
         if t.get("force_chunk"):
             # the chunked branches, on small data: the chunk size computed by _run_train_test_split is lowered from outside
